@@ -873,6 +873,14 @@ func startKeepalive(session keepaliveSession, interval time.Duration, failureThr
 
 		consecutiveFailures := 0
 		for {
+			// A tick that fell due while the previous ping was still in flight is
+			// pending here. If the session was closed in the meantime, select would
+			// choose between that tick and ctx.Done() at random, and a closed
+			// session could be pinged (and reported as failing) once more.
+			// Cancellation wins.
+			if ctx.Err() != nil {
+				return
+			}
 			select {
 			case <-ctx.Done():
 				return
